@@ -129,6 +129,8 @@ def check_swap_wiring(ctx, model):
     from .C14 import check_pair_directions
     from .poolvalue import check_v1_pools
     check_v1_pools(ctx, model, "terraswap_pair", "C02-T3")
+    from .poolvalue import check_reserves_net_of_fees
+    check_reserves_net_of_fees(ctx, model, "terraswap_pair", "C02-T3")
     check_v2_v3_pool(ctx, model, "terraswap_pair", "C02-T3", fns=("swap",))
     # T1's discharge reasons assume a fee triple summing below 100%: every path storing pool_fees validates the whole triple
     from .C18 import validated_store
